@@ -7,13 +7,14 @@
      reference is bound to does not depend on the mode, both tools accept the program, and the order in which the
      modules reach the IR linker is irrelevant.  Both hypotheses are needed (refutations).
    * the compiler's own -O 2 transformation (parameter-copy elision) is C08's model Lower/Opt2.v: `run_copy` is what
-     -O 0 and -O 1 emit, `run_elide` what -O 2 emits; their equality is refuted on the pinned tree.
+     -O 0 and -O 1 emit, `run_elide` what -O 2 emits; their equality is refuted on the pinned tree and proved under
+     the decidable side condition `elide_safe` (no aliasing between an elided argument and what the callee may write).
    NOT modelled (differentially tested by checks/c11.py): LLVM's pass pipeline, IR linker and code generator, gcc/ld.
    Only statements + `exact` of lemmas proved in Lower/Opt2LinkProofs.v / Lower/Opt2Witness.v. *)
 From Coq Require Import List NArith Bool Permutation.
 Import ListNotations.
 From DDP Require Import Lower.Opt2Link Lower.Opt2LinkProofs.
-From DDP Require Import Lower.Opt2 Lower.Opt2Witness.
+From DDP Require Import Lower.Opt2 Lower.Opt2Witness Lower.Opt2Safe Lower.Opt2ElideThm.
 
 (* link_mode_irrelevant: for every two configurations (modules linked into one LLVM module or kept as separate objects)
    x (list definitions linked in or taken from the prebuilt object), every well-formed program, every referencing
@@ -95,4 +96,11 @@ Theorem C11_O2_elision_refuted : exists fuel p, run_elide fuel p <> run_copy fue
 Proof. exact elision_sound_refuted. Qed.
 Print Assumptions C11_O2_elision_refuted.
 
-(* C08-PARTIAL-HOOK *)
+(* ... and TRUE for every program that satisfies the decidable side condition `elide_safe` of Lower/Opt2Safe.v
+   (consistent analysis table; no elided argument can be the storage of a Referenz argument of the same call that
+   the callee may write, nor a global the callee or its callees may write): for those the compiler's own -O 2
+   transformation preserves the behaviour of -O 0 / -O 1 for every fuel. *)
+Theorem C11_O2_elision_sound_partial :
+  forall fuel p, elide_safe p = true -> run_elide fuel p = run_copy fuel p.
+Proof. exact elision_sound_partial. Qed.
+Print Assumptions C11_O2_elision_sound_partial.
